@@ -122,6 +122,14 @@ def outcome(fn, conv=lambda x: x):
     return ("ok", conv(v))
 
 
+def outcome_r(fn, conv=lambda x: x):
+    """(outcome, rounded): rounded is True when Point2D's limit_denominator changed a value
+    during the call -- the exact model does not apply to such a case (set aside, counted)"""
+    r0 = ROUNDINGS[0]
+    out = outcome(fn, conv)
+    return out, ROUNDINGS[0] != r0
+
+
 def apply_expr(env, e):
     """evaluate an expression tree over shapepy objects"""
     op = e[0]
